@@ -354,6 +354,13 @@ impl LocalPeerService {
             for room in acquere.iter() {
                 rooms.push(*room);
             }
+            drop(acquere);
+            //locks granted to this connection that it never started to use must be released too:
+            //no more grant can be sent once the channel is closed
+            lock_receiver.close();
+            while let Ok(room) = lock_receiver.try_recv() {
+                rooms.push(room);
+            }
             Self::cleanup(&lock_service, rooms).await;
             let key = remote_verifying_key.lock().await;
             peer_service
